@@ -100,24 +100,37 @@ def extension_roundtrip():
     sym.check("values_preserved", ok)
     sym.check("reserializes_to_same_document", deep_eq(_reqs_normalised(dump(e2._to_serial())), _reqs_normalised(dump(e._to_serial()))))
     # definitions added AFTER an extension has been serialised once are part of the next serialisation
-    # definitions added after a first serialisation, one kind at a time (a serialisation between each)
-    e.add_extension_value(ext.ExtensionValue("late", val.FALSE))
-    d_late = dump(e._to_serial())
-    ok_late = "late" in d_late["values"]
-    e.add_type_def(ext.TypeDef("LateT", "late", [], ext.ExplicitBound(TypeBound.Copyable)))
-    d_late = dump(e._to_serial())
-    ok_late = ok_late and "LateT" in d_late["types"] and "late" in d_late["values"]
-    e.add_op_def(ext.OpDef("LateOp", ext.OpDefSig(tys.FunctionType([B], [B])), "late"))
-    d_late = dump(e._to_serial())
-    ok_late = ok_late and "LateOp" in d_late["operations"]
-    e.add_extension_value(ext.ExtensionValue("late", val.TRUE))  # redefinition
-    d_late = dump(e._to_serial())
-    ok_late = ok_late and d_late["values"]["late"] == dump(ext.ExtensionValue("late", val.TRUE)._to_serial())
-    sym.check("later_definitions_are_serialised", ok_late)
     for k, o2 in e2.operations.items():
         if o2.signature.poly_func is not None:
             sym.check("decoded_op_def_requires_its_extension", e2.name in o2.signature.poly_func.body.runtime_reqs)
         sym.check("decoded_op_def_owner", o2.get_extension() is e2)
+
+
+@lemma("C10", bounds="an extension with one definition of each kind (or none: symbolic choice), serialised, then extended by one value / type / operation definition or a "
+                     "redefined value (any order of two such steps, a serialisation after each)", outside="longer histories")
+def later_definitions_are_serialised():
+    e = ext.Extension("late.ext", ext.Version(0, 1, 0))
+    if sym.concretize(sym.bool("starts_non_empty")):
+        e.add_type_def(ext.TypeDef("T0", "d", [], ext.ExplicitBound(TypeBound.Any)))
+        e.add_op_def(ext.OpDef("Op0", ext.OpDefSig(tys.FunctionType([B], [B])), "d"))
+        e.add_extension_value(ext.ExtensionValue("late", val.FALSE))
+    dump(e._to_serial())
+    for step in range(2):
+        kind = sym.concretize(sym.int(f"step{step}", 0, 3))
+        if kind == 0:
+            e.add_extension_value(ext.ExtensionValue(f"v{step}", val.FALSE))
+        elif kind == 1:
+            e.add_type_def(ext.TypeDef(f"T{step + 1}", "late", [], ext.ExplicitBound(TypeBound.Copyable)))
+        elif kind == 2:
+            e.add_op_def(ext.OpDef(f"Op{step + 1}", ext.OpDefSig(tys.FunctionType([B], [B])), "late"))
+        else:
+            e.add_extension_value(ext.ExtensionValue("late", val.TRUE))  # (re)definition
+        d = dump(e._to_serial())
+        sym.check("later_definitions_are_serialised",
+                  sorted(d["values"]) == sorted(e.values) and sorted(d["types"]) == sorted(e.types) and sorted(d["operations"]) == sorted(e.operations)
+                  and all(d["values"][k] == dump(v._to_serial()) for k, v in e.values.items()))
+        e2 = ext.Extension.from_json(e.to_json())
+        sym.check("later_definitions_are_loaded_back", sorted(e2.values) == sorted(e.values) and sorted(e2.types) == sorted(e.types) and sorted(e2.operations) == sorted(e.operations))
 
 
 @lemma("C10", bounds="signatures with 0..3 prior requirements drawn from {own name, 'a', 'b'} with repetitions; polymorphic or plain function type; binary op without signature")
